@@ -90,6 +90,15 @@ class PyObj:
         return f"<{self.cls}>"
 
 
+class PyAbsList:
+    """a list of nodes known only by its length and its first and last element (what the string builders read of `values`): mutable"""
+    def __init__(self, n, first, last):
+        self.n, self.first, self.last = n, first, last
+
+    def __repr__(self):
+        return f"<abslist n={self.n}>"
+
+
 class PyUnion:
     """a value of one of several shapes, told apart by `kind` (index into alts); consumers fork on it"""
     def __init__(self, kind, alts):
@@ -117,6 +126,8 @@ class PyComp:
                 return PyUnion(sub(v.kind), [sub(x) for x in v.alts])
             if isinstance(v, PyLit):
                 return PyLit(sub(v.isbytes), sub(v.val))
+            if isinstance(v, PyAbsList):
+                return PyAbsList(sub(v.n), sub(v.first), sub(v.last))
             if isinstance(v, z3.ExprRef):
                 return z3.substitute(v, (self.j, k))
             return v
@@ -327,6 +338,13 @@ def clone(v, memo):
     if isinstance(v, PyTuple):
         n = PyTuple([clone(x, memo) for x in v.items])
         memo[id(v)] = n
+        return n
+    if isinstance(v, PyAbsList):
+        if id(v) in memo:
+            return memo[id(v)]
+        n = PyAbsList(v.n, None, None)
+        memo[id(v)] = n
+        n.first, n.last = clone(v.first, memo), clone(v.last, memo)
         return n
     if isinstance(v, PyMap):
         n = PyMap(v.present, v.value)
